@@ -3,6 +3,7 @@ package c15
 import (
 	"context"
 	"fmt"
+	"os"
 	"reflect"
 	"sort"
 	"strings"
@@ -12,6 +13,7 @@ import (
 
 	kvexec "github.com/evstack/ev-node/apps/testapp/kv"
 	ds "github.com/ipfs/go-datastore"
+	dsq "github.com/ipfs/go-datastore/query"
 
 	"verif/harness/explore"
 	"verif/harness/vf"
@@ -187,6 +189,66 @@ func mkConfig(nBlocks, maxBlocks, maxExtras int) *config {
 }
 
 // ---------------------------------------------------------------------------------------------------------------
+// datastore double: world.KV (in-memory, sorted iteration, atomic batches). Only the unfiltered Query is answered
+// here directly from the same contents, because go-datastore's result helpers start a goroutine per query, which
+// dominates a search that runs millions of root computations. Semantics are the same: every key, sorted.
+
+type fastKV struct{ *world.KV }
+
+func (f fastKV) Query(c context.Context, q dsq.Query) (dsq.Results, error) {
+	if q.Prefix != "" || len(q.Filters) > 0 || len(q.Orders) > 0 || q.Limit != 0 || q.Offset != 0 {
+		return f.KV.Query(c, q)
+	}
+	keys := f.KV.Keys("")
+	es := make([]dsq.Entry, len(keys))
+	for i, k := range keys {
+		v, _ := f.KV.RawGet(k)
+		es[i] = dsq.Entry{Key: k, Size: len(v)}
+		if !q.KeysOnly {
+			es[i].Value = append([]byte(nil), v...)
+		}
+	}
+	return &fastResults{q: q, es: es}, nil
+}
+
+type fastResults struct {
+	q    dsq.Query
+	es   []dsq.Entry
+	i    int
+	done chan struct{}
+}
+
+func (r *fastResults) Query() dsq.Query { return r.q }
+func (r *fastResults) Next() <-chan dsq.Result {
+	ch := make(chan dsq.Result, len(r.es)-r.i)
+	for ; r.i < len(r.es); r.i++ {
+		ch <- dsq.Result{Entry: r.es[r.i]}
+	}
+	close(ch)
+	return ch
+}
+func (r *fastResults) NextSync() (dsq.Result, bool) {
+	if r.i >= len(r.es) {
+		return dsq.Result{}, false
+	}
+	r.i++
+	return dsq.Result{Entry: r.es[r.i-1]}, true
+}
+func (r *fastResults) Rest() ([]dsq.Entry, error) {
+	rest := r.es[r.i:]
+	r.i = len(r.es)
+	return rest, nil
+}
+func (r *fastResults) Close() error { return nil }
+func (r *fastResults) Done() <-chan struct{} {
+	if r.done == nil {
+		r.done = make(chan struct{})
+		close(r.done)
+	}
+	return r.done
+}
+
+// ---------------------------------------------------------------------------------------------------------------
 // the two instances and the reference
 
 type inst struct {
@@ -235,7 +297,7 @@ func newSys(cfg *config) (*sys, []viol) {
 	var vs []viol
 	for i := range s.in {
 		kv := world.NewKV(nil)
-		x := &inst{name: names[i], kv: kv, ex: kvexec.VerifNewKVExecutorOn(kv, mempoolCap)}
+		x := &inst{name: names[i], kv: kv, ex: kvexec.VerifNewKVExecutorOn(fastKV{kv}, mempoolCap)}
 		root, _, err := x.ex.InitChain(ctx, genesisTime, 1, chainID)
 		if err != nil {
 			vs = append(vs, viol{clause: "root-determinism", tags: []string{"first-initchain"}, msg: "first InitChain failed: " + err.Error()})
@@ -476,7 +538,7 @@ func (s *sys) apply(a action, check bool) (vs []viol) {
 		unchanged("idempotence", "repeated InitChain", x.featureTags())
 	case "reopen":
 		x.kv = world.NewKV(x.kv.Image())
-		x.ex = kvexec.VerifNewKVExecutorOn(x.kv, mempoolCap)
+		x.ex = kvexec.VerifNewKVExecutorOn(fastKV{x.kv}, mempoolCap)
 		x.mem = nil
 		unchanged("reopen", "reopening", x.featureTags())
 	case "reexec":
@@ -605,6 +667,7 @@ func TestCheck(t *testing.T) {
 		return
 	}
 	var executed, disabled, blockRuns, rootChecks atomic.Int64
+	started := time.Now()
 	st := explore.BFS(explore.BFSConfig{Depth: depth, Actions: len(cfg.acts), Deadline: vf.Pick(r, 100*time.Second, 25*time.Minute)}, func(hist []int) explore.Step {
 		if staticallyDisabled(cfg, hist) {
 			disabled.Add(1)
@@ -615,7 +678,9 @@ func TestCheck(t *testing.T) {
 			disabled.Add(1)
 			return explore.Step{Prune: true}
 		}
-		executed.Add(1)
+		if n := executed.Add(1); n%500000 == 0 {
+			fmt.Fprintf(os.Stderr, "progress: %d histories executed, at depth %d, %s\n", n, len(hist), time.Since(started).Round(time.Second))
+		}
 		if n := len(hist); n > 0 && cfg.acts[hist[n-1]].kind == "block" {
 			blockRuns.Add(1)
 		}
